@@ -22,7 +22,7 @@ package choquet
 //   capacity(all criteria from the group's first position to the end) x (the group's first value - the previous group's first value),
 // with 0 before the first group: the property's formula, group by group (the summation over groups is the loop itself).
 //@ func computeTotalWeight
-//@   property C03
+//@   property C03 C01 C04 C07 C15 C18
 //@   loop 1 invariant [ctx] 0 <= i && i <= totalElements && totalElements == len(*sortedCriteria) && unchanged(*sortedCriteria)
 //@   loop 1 invariant [starts_from_zero] i == 0 ==> previousWeight == 0.0 && result == 0.0
 //@   loop 1 invariant [next_group_differs] 0 < i && i < totalElements ==> abs(previousWeight - (*sortedCriteria)[i].weight) > 0.00001
@@ -45,17 +45,17 @@ package choquet
 // pairOf: an entry of the sorted list is one of the alternative's (criterion, value) pairs (or an unfilled zero slot)
 //@ pred pairOf(e criterionWeight, alt model.AlternativeWithCriteria) = (e.criterion == "" && e.weight == 0.0) || (e.criterion in alt.Criteria && e.weight == alt.Criteria[e.criterion])
 //@ func prepareCriteriaInAscendingOrder
-//@   property C03
+//@   property C03 C01 C04 C07 C15 C18
 //@   ensures [ascending_values] result != nil && fresh(result) && forall a int, b int :: 0 <= a && a < b && b < len(*result) ==> (*result)[a].weight <= (*result)[b].weight
 //@   ensures [the_alternatives_values] forall k int :: 0 <= k && k < len(*result) ==> pairOf((*result)[k], *alternative)
 //@   loop 1 invariant [ctx] fresh(sorted) && i >= 0
 //@   loop 1 invariant [pairs] forall k int :: 0 <= k && k < len(sorted) ==> pairOf(sorted[k], *alternative)
 
 //@ func choquetIntegral
-//@   property C03
+//@   property C03 C01 C04 C07 C15 C18
 //@   ensures [single_value] result != nil && typeis(result.Evaluation, model.EvaluationSingleValue) && result.Alternative == *alternative
 //@ func (*ChoquetIntegralPreferenceFunc).Evaluate$1
-//@   property C03
+//@   property C03 C15 C07 C18 C01 C04
 //@   ensures [is_choquet] result != nil && typeis(result.Evaluation, model.EvaluationSingleValue) && result.Alternative == *alternative
 
 // ---- registered names (what a request must say to select this object; what error messages list)
@@ -79,14 +79,16 @@ package choquet
 //@   property C03 C20
 //@   panics_iff [capacity_outside_the_unit_interval] v < 0.0 || v > 1.0
 //@ func getWeightForCombinedCriterion
-//@   property C03 C20 C07 C18
+//@   property C03 C20 C07 C18 C01 C04 C15
 //@   panics_iff [capacity_missing] !(*weightKey in *weights)
 //@   ensures [that_capacity] result == (*weights)[*weightKey]
 //@ func prepareWeights
 //@   property C03 C20
 //@   ensures [capacities_in_the_unit_interval] result != nil && fresh(result) && forall q string :: q in *result ==> 0.0 <= (*result)[q] && (*result)[q] <= 1.0
+//@   ensures [every_capacity_is_one_the_request_gives] forall q string :: q in *result ==> exists k string :: k in *weights && (*result)[q] == (*weights)[k]
 //@   loop 1 invariant [ctx] fresh(resultWeights) && resultWeights != nil
 //@   loop 1 invariant [in_range_so_far] forall q string :: q in resultWeights ==> 0.0 <= resultWeights[q] && resultWeights[q] <= 1.0
+//@   loop 1 invariant [given_so_far] forall q string :: q in resultWeights ==> exists k string :: k in *weights && resultWeights[q] == (*weights)[k]
 //@ func parse
 //@   property C03 C20
 //@   ensures [validated] result != nil && (forall k int :: 0 <= k && k < len(*criteria) ==> (*criteria)[k].Type == model.Gain)
@@ -106,7 +108,7 @@ package choquet
 //@   trusted
 //@   ensures [new_lists] result != nil && fresh(result) && fresh(*result) && forall i int :: 0 <= i && i < len(*result) ==> fresh((*result)[i])
 //@ func criterionKey
-//@   property C07 C18 C03 C20
+//@   property C07 C18 C03 C20 C01 C04 C15
 //@   assigns *criteria
 //@   ensures [same_list_object] *criteria == old(*criteria)
 //@ func (*ChoquetIntegralBiasListener).OnCriterionAdded
@@ -128,3 +130,12 @@ package choquet
 //@             && len(*result.(choquetParams).criteria) == len(*params.(choquetParams).criteria) + len(*addition.(choquetParams).criteria)
 //@             && (forall q string :: q in *result.(choquetParams).weights <==> (q in *params.(choquetParams).weights || q in *addition.(choquetParams).weights))
 //@             && (forall q string :: q in *params.(choquetParams).weights ==> (*result.(choquetParams).weights)[q] == (*params.(choquetParams).weights)[q])
+
+// the method as a whole: one entry per considered alternative, ordered by value then id
+//@ func (*ChoquetIntegralPreferenceFunc).Evaluate
+//@   property C03 C01 C04 C15 C07 C18
+//@   requires [distinct] forall i int, j int :: 0 <= i && i < j && j < len(dmp.ConsideredAlternatives) ==> dmp.ConsideredAlternatives[i].Id != dmp.ConsideredAlternatives[j].Id
+//@   requires [params] typeis(dmp.MethodParameters, choquetParams) && dmp.MethodParameters.(choquetParams).weights != nil
+//@   ensures [one_entry_each] result != nil && len(*result) == len(dmp.ConsideredAlternatives)
+//@   ensures [all_considered_present] forall j int :: 0 <= j && j < len(dmp.ConsideredAlternatives) ==> exists i int :: 0 <= i && i < len(*result) && (*result)[i].Alternative == dmp.ConsideredAlternatives[j]
+//@   ensures [C04 ordered_by_value_then_id] forall i int, j int :: 0 <= i && i < j && j < len(*result) ==> !model.ordered((*result)[j].AlternativeResult, (*result)[i].AlternativeResult)
